@@ -28,6 +28,7 @@ FIXED = [
  (["C08"], "fix: right-associative operators", "tree-mismatch", "with ** (7.5, right) and ++ (7, left), `a ** b ++ c` parsed as a ** (b ++ c) (bp - 1 assumed whole-number powers)"),
  (["C12"], "fix: a compiled expression reports", "api-panic", "run-time failures ([1,2][5], 5 % 0, match(\"(\", s)) escaped Eval / Callable as panics"),
  (["C12"], "fix: a pointer to a nil map", "api-panic", "Eval(\"1\", &m) with a nil map m panicked in reflectMap"),
+ (["C12"], "fix: list / map literals are parsed without", "work-superquadratic", "[[[1:1]:1]:1]… nested 22 deep (89 bytes) took seconds, doubling per level: the list-or-map backtracking re-parsed the first element"),
  (["C13"], "fix: compiling or invoking does not consume", "env-not-reusable", "a *types.Env / *val.Env could be used once: the second Compile / invocation failed with 'env.parent != nil'"),
  (["C14"], "fix: the fresh type-variable counter", "data-race", "data race on the process-wide type-variable counter when two engines compile polymorphic calls"),
  (["C01", "C07"], "fix: object fields are read by name", "value-type-mismatch", "[{a:1,b:\"x\"},{b:\"y\",a:2}][1].a yielded the string \"y\" at type num; o.a compiled for struct{A;B} read the wrong field of struct{B;A}"),
@@ -36,6 +37,7 @@ FIXED = [
 ]
 OPEN = [
  # property, class, detail_regex, key_regex, what
+ ("C10", "desugar-not-idempotent-grouped-member-callee", "", "", "Desugar is not idempotent on a call of a parenthesised member: (o.m)(x) desugars to Call{callee: o.m}, which a second Desugar reads as the method-call notation and turns into m(o, x); the core tree has no way to tell 'call the function stored in field m' from 'method notation', so no small repair exists (the facade applies Desugar once, so evaluation is unaffected)"),
  ("C03", "callthread-exec-limit", "", "", "the call-threaded dispatch loop aborts with 'over exec limit' after 1024 instructions (const limit in vm/gen_test.go, which regenerates vm/callthread.go on every test run and may not be edited); the switch loop, closure compiler and interpreter have no such cap"),
 ]
 out = []
